@@ -73,7 +73,95 @@ def collect():
     d('exceptionOffset', 'Nat', str(ExceptionResponse.ExceptionOffset))
     d('excCodes', 'List (String × Nat)', lean_list('(%s, %d)' % (lean_str(k), v) for k, v in sorted(
         (k, v) for k, v in vars(ModbusExceptions).items() if isinstance(v, int) and not k.startswith('_'))))
+
+    # C15: the lock discipline of the synchronous transaction manager, read off the source by ast
+    li = lock_scope_info()
+    d('lockScope', 'String', lean_str(li['scope']))
+    d('lockCtor', 'String', lean_str(li['ctor']))
+    d('lockAssignments', 'Nat', str(li['assignments']))
+    d('lockAssignedIn', 'String', lean_str(li['where']))
+    d('lockReferences', 'Nat', str(li['references']))
+    d('clientExecuteViaManager', 'Bool', 'true' if client_execute_info() else 'false')
     return out
+
+
+def lock_scope_info(path=None):
+    """C15: read the locking discipline of the synchronous transaction manager off the SOURCE (ast, nothing is
+    executed): is the whole body of `ModbusTransactionManager.execute` one `with self._transaction_lock:` statement, is
+    `_transaction_lock` assigned exactly once (in `__init__`) and to a plain `RLock()` - not a mapping of locks, not
+    indexed by anything in the `with`; does `BaseModbusClient.execute` go through `self.transaction.execute`."""
+    import ast
+    if path is None:
+        import pymodbus.transaction as _t
+        path = _t.__file__
+    tree = ast.parse(open(path).read())
+
+    def is_lock_attr(n):
+        return isinstance(n, ast.Attribute) and n.attr == '_transaction_lock'
+
+    def mentions_lock(n):
+        return any(is_lock_attr(x) for x in ast.walk(n))
+
+    cls = [n for n in tree.body if isinstance(n, ast.ClassDef) and n.name == 'ModbusTransactionManager']
+    if not cls:
+        return dict(scope='no-class', ctor='?', assignments=0, where='?', references=0)
+    cls = cls[0]
+    # every assignment to an attribute called _transaction_lock anywhere in the module
+    assigns = []
+    for fn in ast.walk(tree):
+        if isinstance(fn, (ast.FunctionDef,)):
+            for n in ast.walk(fn):
+                targets = []
+                if isinstance(n, ast.Assign):
+                    targets = n.targets
+                elif isinstance(n, (ast.AugAssign, ast.AnnAssign)):
+                    targets = [n.target]
+                for t in targets:
+                    for x in ast.walk(t):
+                        if is_lock_attr(x):
+                            assigns.append((fn.name, ast.unparse(n.value) if getattr(n, 'value', None) is not None else '?'))
+    # every mention of the attribute in the module: the assignment and the `with` are the only legitimate ones
+    refs = sum(1 for x in ast.walk(tree) if is_lock_attr(x))
+    ctor = assigns[0][1] if len(assigns) == 1 else ';'.join(a[1] for a in assigns) or 'none'
+    if ctor in ('threading.RLock()',):
+        ctor = 'RLock()'
+    where = assigns[0][0] if len(assigns) == 1 else ','.join(a[0] for a in assigns)
+    ex = [n for n in cls.body if isinstance(n, ast.FunctionDef) and n.name == 'execute']
+    if not ex:
+        return dict(scope='no-execute', ctor=ctor, assignments=len(assigns), where=where, references=refs)
+    body = list(ex[0].body)
+    if body and isinstance(body[0], ast.Expr) and isinstance(getattr(body[0], 'value', None), ast.Constant) \
+            and isinstance(body[0].value.value, str):
+        body = body[1:]          # docstring
+    scope = None
+    if len(body) == 1 and isinstance(body[0], ast.With) and len(body[0].items) == 1:
+        ce = body[0].items[0].context_expr
+        if is_lock_attr(ce) and isinstance(ce.value, ast.Name) and ce.value.id == 'self':
+            scope = 'whole'
+        elif isinstance(ce, ast.Subscript) and is_lock_attr(ce.value):
+            scope = 'perKey:' + ast.unparse(ce.slice)
+        elif mentions_lock(ce):
+            scope = 'other:' + ast.unparse(ce)
+    if scope is None:
+        withs = [n for n in ast.walk(ex[0]) if isinstance(n, ast.With) and any(mentions_lock(i.context_expr) for i in n.items)]
+        calls = [n for n in ast.walk(ex[0]) if isinstance(n, ast.Call) and mentions_lock(n.func)]
+        scope = 'partial' if (withs or calls) else 'none'
+    return dict(scope=scope, ctor=ctor, assignments=len(assigns), where=where, references=refs)
+
+
+def client_execute_info():
+    """does `BaseModbusClient.execute` end in `return self.transaction.execute(request)` (one shared manager)"""
+    import ast
+    import pymodbus.client.sync as _s
+    tree = ast.parse(open(_s.__file__).read())
+    for c in tree.body:
+        if isinstance(c, ast.ClassDef) and c.name == 'BaseModbusClient':
+            for f in c.body:
+                if isinstance(f, ast.FunctionDef) and f.name == 'execute':
+                    last = f.body[-1]
+                    return isinstance(last, ast.Return) and last.value is not None and \
+                        ast.unparse(last.value).replace(' ', '') == 'self.transaction.execute(request)'
+    return False
 
 
 def render():
